@@ -132,6 +132,13 @@ func init() {
 		ppuWrite(ai(a, 1), uint8(ai(a, 2)))
 		emit("w %d %d", ai(a, 1), ai(a, 2)&0xff)
 	})
+	// ppu.wi REG V: like ppu.w with IF cleared before the write and IF bits 1-0 printed after it
+	register("ppu.wi", func(a []string) {
+		pI.WriteIF(0)
+		ppuWrite(ai(a, 1), uint8(ai(a, 2)))
+		emit("w %d %d", ai(a, 1), ai(a, 2)&0xff)
+		emit("I %d", pI.ReadIF()&3)
+	})
 	register("ppu.r", func(a []string) { emit("%d", ppuRead(ai(a, 1))) })
 	register("ppu.st", func(a []string) {
 		s := pP.VGetState()
